@@ -378,4 +378,19 @@ ZOO = [
     ('void f(void){ goto', False),
     ('int x = (1 + 2;', False),
     ('int x = 1 + 2);', False),
+    # round 6: runs of prefix operators over casts, parenthesised comma arguments, suffixed constants in braces, tagged enums with
+    # several declarators, _Atomic members / parameters, parenthesised typedef-named parameters, pragmas before blocks, octal-looking floats
+    ('void f(int *p, char *q){ ++*(int *)p; --*(char *)q; ++*p; x = -(int)y; x = ++*(int *)p + --*(short *)q; x = sizeof *(int *)p; x = !(int)++*p; }', True),
+    ('void f(int **pp){ x = - - -a; x = !~-+a; x = *&*&a; x = -*++*pp; x = ++**pp; x = --*(*pp)++; x = ~(char)-(long)a; x = sizeof -(int)a; x = -sizeof(int); x = &*pp[1]; }', True),
+    ('void f(void){ x = (int)(long)(char)a; x = (int)-a; x = (int)*p; x = (int)&a; x = (int)~a; x = (int)!a; x = (int)sizeof a; x = (int)sizeof(int); x = (int)(a); x = (int)a++; x = (int)++a; }', True),
+    ('void f(void){ g((a, b)); g((a, b), c); g(a, (b, c)); h(((a))); k((a = 1)); m(a ? b : c, (d, e) ? f : g); }', True),
+    ('int t[] = { 10UL, 20u, 30LL, 0x10UL, 5 + 6UL, 07u }; struct P { unsigned long a; unsigned b; } pp = { 10UL, 20u }, qq[] = { { 1UL, 2u }, { .b = 3u } }; long q = (long){ 40L };', True),
+    ('enum color { RED, GREEN } ca, *cb, cc[2]; enum color2 { BLUE = 3 } cd, ce; struct tag2 { int m; } ta, *tb; union tag3 { int n; } ua, ub[2];', True),
+    ('struct A { _Atomic(int) m; _Atomic(char *) p; }; void fa(_Atomic(int) x, _Atomic(long) *y); _Atomic(int) ga;', True),
+    ('typedef int T; void f1(int ((T))); void f2(int (*(T))); void f3(int (T)); void f5(int (T[2])); void f6(int (T (char)));', True),
+    ('typedef int T; void f4(int (*T)(void));', False),
+    ('typedef int T; void g(int n){ for (int T = 0; T < n; T++) { T * n; (T)(n); h(T); } }', True),
+    ('void f(int x){ for (;;)\n#pragma omp task\n { a; b; } while (x)\n#pragma w\n { c; } if (x)\n#pragma i\n { d; } else\n#pragma e\n { e; } L:\n#pragma l\n { g; } }', True),
+    ('void f(int x){ switch (x) { case 1:\n#pragma c\n a; default:\n#pragma d\n b; } switch (x) default:\n#pragma e\n c; }', True),
+    ('double d[] = { 09.5, 08e1, 019., 0.8, 00.9, 08.f, 09e-1L, 0e0, 00e1 }; int o = 017 + 00 + 0;', True),
 ]
